@@ -30,6 +30,8 @@ def run_grammar(args):
     rng = random.Random(seed * 1000003 + idx)
     if kw.get("twins") and idx % 4 == 3:
         pg = complete.twin_gen(rng)
+    elif kw.get("twins") and idx % 8 == 2:
+        pg = complete.head_overlap_gen(rng)
     elif kw.get("shared") and idx % 4 == 1:
         pg = complete.shared_gen(rng)
     else:
@@ -69,6 +71,15 @@ def check_grammars(ctx, n, own="C01", **kw):
                     continue
                 got = complete.bash_answer(brc, reply)
                 want = spec["strict"]
+                # (S) the Lean model of the bash template on the tables of this very script vs the real bash
+                if spec.get("model", "absent") != "absent":
+                    ctx.count("template-model-compared")
+                    if spec["model"] != got:
+                        ctx.count("template-model-differs")
+                        if len([b for b in ctx.correspondence_breaks if b[0] == "bash-template-model"]) < 5:
+                            ctx.correspondence_breaks.append(("bash-template-model", {
+                                "grammar": text, "words": ws, "prefix": p, "wordbreaks": "default" if wb is None else wb,
+                                "bash": got, "model": spec["model"]}))
                 rp = {"grammar": text, "grammar_hex": core.hexs(text), "probe_outputs": pg.outputs, "words": ws, "prefix": p,
                       "wordbreaks": "default" if wb is None else wb, "bash": {"rc": brc, "COMPREPLY": reply}, "spec": want}
                 if own == "C01":
